@@ -17,6 +17,19 @@ fn stub_vec_with_capacity<T>(n: usize) -> Vec<T> {
     Vec::with_capacity_in(n, std::alloc::Global)
 }
 
+/// `core::str::from_utf8` replaced (Kani stubbing) by an exact DFA validator: std's validator
+/// scans a machine word at a time with loops CBMC cannot digest on symbolic bytes.  The DFA
+/// (`utf8_ok`) implements RFC 3629 / Unicode table 3-7; the error value is opaque to all callers
+/// reached here (they only test `is_err` / map it away).
+fn stub_from_utf8(v: &[u8]) -> Result<&str, core::str::Utf8Error> {
+    if utf8_ok(v) {
+        Ok(unsafe { core::str::from_utf8_unchecked(v) })
+    } else {
+        // Utf8Error { valid_up_to: usize, error_len: Option<u8> } has no public constructor
+        Err(unsafe { core::mem::transmute::<(usize, Option<u8>), core::str::Utf8Error>((0usize, None)) })
+    }
+}
+
 fn set_input_len(n: usize) {
     unsafe {
         INPUT_LEN = n;
@@ -29,14 +42,16 @@ type LE = speedy::LittleEndian;
 /// decoding a fully symbolic buffer of fixed length must RETURN (Ok or Err): no panic, no
 /// arithmetic overflow, no capacity overflow, no allocation request unrelated to the input
 macro_rules! decode_total {
-    ($name:ident, $ty:ty, $len:expr, $unwind:expr $(, prefix = [$($p:expr),*])? $(, check = $chk:expr)?) => {
+    ($name:ident, $ty:ty, $len:expr, $unwind:expr $(, prefix = [$($p:expr),*])? $(, not_first = $nf:expr)? $(, check = $chk:expr)?) => {
         #[kani::proof]
         #[kani::unwind($unwind)]
         #[kani::stub(alloc::fmt::format, stub_format)]
         #[kani::stub(std::vec::Vec::with_capacity, stub_vec_with_capacity)]
+        #[kani::stub(core::str::from_utf8, stub_from_utf8)]
         fn $name() {
             let mut buf: [u8; $len] = kani::any();
             $( let prefix: &[u8] = &[$($p),*]; let mut i = 0; while i < prefix.len() { buf[i] = prefix[i]; i += 1; } )?
+            $( kani::assume(buf[0] != $nf); )?
             set_input_len($len);
             let r = <$ty as Readable<LE>>::read_from_buffer(&buf);
             kani::cover!(true, "decoder returned");
@@ -54,11 +69,13 @@ decode_total!(c09_need_total_l33, SyncNeedV1, 33, 4);
 decode_total!(c09_need_total_l49, SyncNeedV1, 49, 5);
 
 // ---- Changeset (hand-written) --------------------------------------------------------------
-decode_total!(c09_changeset_total_l01, Changeset, 1, 4);
-decode_total!(c09_changeset_total_l09, Changeset, 9, 4);
-decode_total!(c09_changeset_total_l18, Changeset, 18, 4);
-decode_total!(c09_changeset_total_l26, Changeset, 26, 4);
-decode_total!(c09_changeset_total_l33, Changeset, 33, 4);
+decode_total!(c09_changeset_total_l01, Changeset, 1, 4, not_first = 1);
+decode_total!(c09_changeset_total_l09, Changeset, 9, 4, not_first = 1);
+decode_total!(c09_changeset_total_l18, Changeset, 18, 4, not_first = 1);
+decode_total!(c09_changeset_total_l26, Changeset, 26, 4, not_first = 1);
+decode_total!(c09_changeset_total_l33, Changeset, 33, 4, not_first = 1);
+// (the generic Changeset harnesses exclude tag 1: its arm only delegates to the derived
+// Vec<Change> reader, which is covered here)
 // Full variant: tag fixed to 1, everything else symbolic (lands in the derived Vec<Change> reader)
 decode_total!(c09_changeset_full_total_l45, Changeset, 45, 4, prefix = [1]);
 
@@ -117,7 +134,10 @@ decode_total!(c09_value_blob_total_l08, SqliteValue, 8, 6, prefix = [4]);
 
 // ---- names, ids, timestamps ----------------------------------------------------------------
 // TableName / ColumnName read a `&str` through speedy, which validates UTF-8 itself (library code)
-decode_total!(c09_tablename_total_l05, TableName, 5, 6);
+fn table_is_utf8(v: &TableName) {
+    assert!(utf8_ok(v.0.as_bytes()), "C09-UTF8: decoded name is not valid UTF-8");
+}
+decode_total!(c09_tablename_total_l07, TableName, 7, 6, check = table_is_utf8);
 decode_total!(c09_actor_total_l16, ActorId, 16, 18);
 decode_total!(c09_actor_total_l15, ActorId, 15, 18);
 decode_total!(c09_timestamp_total_l08, Timestamp, 8, 10);
